@@ -242,6 +242,16 @@ fn trace(out: &mut Out, ctl: &mut Ctl, seed: u64, n_calls: usize, st: &mut Stats
             let post = unsafe { observe_c(ctx) };
             let tpost = observe_twin(&mut tw);
             let post_state = state_of(&post, &tw);
+            // transcript record of the getter model (Driver/CApiGetters.lean recomputes every C getter's answer from the
+            // twin editor's Rust getters with the Lean model of capi/src/io.rs)
+            out.rec(&capiget_record(&mut tw, &post));
+            st.add("getter_records", 1);
+            if post.selecting() {
+                st.add("getter_records_with_open_list", 1);
+            }
+            if post.buf.len() > 255 || post.commit.len() > 255 || post.aux.len() > 255 {
+                st.add("getter_records_with_a_text_longer_than_its_static_buffer", 1);
+            }
             st.add("calls", 1);
             st.add(&format!("h.{}", op.handler()), 1);
             st.add("getter_observations", 1);
